@@ -1090,4 +1090,208 @@ Lemma redefinition_example :
   root_factor rd_reg' "foot" = Some (mkq 10 1) ∧ root_factor rd_reg' "hour" = root_factor rd_reg "hour" ∧
   root_factor rd_reg "hour" = Some (mkq 3600 1).
 Proof. repeat split; by_compute. Qed.
+
+(** * 5. [redefine] changes the resolution of the redefined unit's spellings only *)
+Definition spellings (d : udef) : list string :=
+  u_name d :: app (match u_sym d with Some s => if String.eqb s "" then [] else [s] | None => [] end) (u_aliases d).
+
+Lemma fold_insert_lookup (d : udef) (l : list string) (m : gmap string udef) k :
+  fold_left (λ m a, <[a := d]> m) l m !! k = if decide (k ∈ l) then Some d else m !! k.
+Proof.
+  revert m. induction l as [|a l IH]; intros m; simpl.
+  - destruct (decide (k ∈ [])) as [H|_]; [inversion H | reflexivity].
+  - rewrite IH. destruct (decide (k ∈ l)) as [Hl|Hl].
+    + destruct (decide (k ∈ a :: l)) as [_|Hn]; [reflexivity | exfalso; apply Hn; right; exact Hl].
+    + destruct (decide (k = a)) as [->|Hne].
+      * rewrite lookup_insert. destruct (decide (a ∈ a :: l)) as [_|Hn]; [reflexivity | exfalso; apply Hn; left].
+      * rewrite lookup_insert_ne by congruence.
+        destruct (decide (k ∈ a :: l)) as [Hin|_]; [|reflexivity].
+        apply elem_of_cons in Hin as [->|Hin]; contradiction.
+Qed.
+Lemma add_def_keys_lookup d (m : gmap string udef) k :
+  add_def_keys d m !! k = if decide (k ∈ spellings d) then Some d else m !! k.
+Proof.
+  unfold add_def_keys, spellings. rewrite fold_insert_lookup.
+  destruct (decide (k ∈ u_aliases d)) as [Ha|Ha].
+  - destruct (decide (k ∈ _)) as [_|Hn]; [reflexivity|]. exfalso. apply Hn. right. apply elem_of_app. right. exact Ha.
+  - destruct (u_sym d) as [s|]; [destruct (String.eqb s "") eqn:Es|]; cbn [app].
+    + destruct (decide (k = u_name d)) as [->|Hne].
+      * rewrite lookup_insert. destruct (decide (u_name d ∈ _)) as [_|Hn]; [reflexivity | exfalso; apply Hn; left].
+      * rewrite lookup_insert_ne by congruence. destruct (decide (k ∈ _)) as [Hin|_]; [|reflexivity].
+        apply elem_of_cons in Hin as [->|Hin]; contradiction.
+    + destruct (decide (k = s)) as [->|Hs].
+      * rewrite lookup_insert. destruct (decide (s ∈ _)) as [_|Hn]; [reflexivity | exfalso; apply Hn; right; left].
+      * rewrite lookup_insert_ne by congruence. destruct (decide (k = u_name d)) as [->|Hne].
+        -- rewrite lookup_insert. destruct (decide (u_name d ∈ _)) as [_|Hn]; [reflexivity | exfalso; apply Hn; left].
+        -- rewrite lookup_insert_ne by congruence. destruct (decide (k ∈ _)) as [Hin|_]; [|reflexivity].
+           apply elem_of_cons in Hin as [->|Hin]; [contradiction|]. apply elem_of_cons in Hin as [->|Hin]; contradiction.
+    + destruct (decide (k = u_name d)) as [->|Hne].
+      * rewrite lookup_insert. destruct (decide (u_name d ∈ _)) as [_|Hn]; [reflexivity | exfalso; apply Hn; left].
+      * rewrite lookup_insert_ne by congruence. destruct (decide (k ∈ _)) as [Hin|_]; [|reflexivity].
+        apply elem_of_cons in Hin as [->|Hin]; contradiction.
+Qed.
+
+Section Agree.
+  Variables (r : reg) (nd : udef).
+  Definition r_over : reg := with_units r (add_def_keys nd (r_units r)).
+  (** every spelling of the redefined unit already denotes a unit of that name and symbol *)
+  Hypothesis own : ∀ k, k ∈ spellings nd →
+    ∃ b, r_units r !! k = Some b ∧ u_name b = u_name nd ∧ u_symbol b = u_symbol nd.
+
+  Lemma over_lookup k : r_units r_over !! k = if decide (k ∈ spellings nd) then Some nd else r_units r !! k.
+  Proof. apply add_def_keys_lookup. Qed.
+
+  Lemma over_pointwise k :
+    match r_units r_over !! k, r_units r !! k with
+    | Some a, Some b => u_name a = u_name b ∧ u_symbol a = u_symbol b ∧ (k ∉ spellings nd → a = b)
+    | None, None => True
+    | _, _ => False
+    end.
+  Proof.
+    rewrite over_lookup. destruct (decide (k ∈ spellings nd)) as [Hin|Hn].
+    - destruct (own k Hin) as (b & -> & Hn & Hs). repeat split; auto. contradiction.
+    - destruct (r_units r !! k); auto.
+  Qed.
+
+  Lemma over_triplets s : triplets r_over s = triplets r s.
+  Proof.
+    unfold triplets. apply flat_map_ext. intros suffix. apply flat_map_ext. intros pk.
+    change (r_prefixes r_over) with (r_prefixes r).
+    destruct (String.prefix pk s && ends_with suffix s); [|reflexivity].
+    set (name := if String.eqb suffix "" then _ else _).
+    destruct (negb (String.eqb suffix "") && Nat.eqb (ulen name) 1); [reflexivity|].
+    pose proof (over_pointwise name) as H.
+    destruct (r_units r_over !! name), (r_units r !! name); try contradiction; [|reflexivity].
+    destruct H as (-> & _ & _). reflexivity.
+  Qed.
+  Lemma over_parse s : parse_unit_name r_over s = parse_unit_name r s.
+  Proof. unfold parse_unit_name. rewrite over_triplets. reflexivity. Qed.
+  Lemma over_symbol s : get_symbol r_over s = get_symbol r s.
+  Proof.
+    unfold get_symbol. rewrite over_parse. destruct (parse_unit_name r s) as [|[p u] l]; [reflexivity|].
+    change (r_prefixes r_over) with (r_prefixes r). destruct (r_prefixes r !! p); [|reflexivity].
+    pose proof (over_pointwise u) as H.
+    destruct (r_units r_over !! u), (r_units r !! u); try contradiction; [|reflexivity].
+    destruct H as (_ & -> & _). reflexivity.
+  Qed.
+
+  (** the spelling a resolution consults *)
+  Definition consult (s : string) : option string :=
+    match r_units r !! s with
+    | Some _ => Some s
+    | None => match parse_unit_name r s with [] => None | (_, u) :: _ => Some u end
+    end.
+  Definition touched (s : string) : Prop := ∃ k, consult s = Some k ∧ k ∈ spellings nd.
+
+  Theorem over_agree s : ¬ touched s → resolve r_over s = resolve r s.
+  Proof.
+    intros Hn. unfold resolve. pose proof (over_pointwise s) as Hs. unfold touched, consult in Hn.
+    destruct (r_units r !! s) as [b|] eqn:Eb.
+    - destruct (r_units r_over !! s) as [a|]; [|contradiction]. destruct Hs as (_ & _ & Heq).
+      rewrite Heq; [reflexivity|]. intros Hin. apply Hn. eauto.
+    - destruct (r_units r_over !! s); [contradiction|]. rewrite over_parse.
+      destruct (parse_unit_name r s) as [|[p u] l]; [reflexivity|].
+      assert (Hu : r_units r_over !! u = r_units r !! u).
+      { pose proof (over_pointwise u) as H.
+        destruct (r_units r_over !! u), (r_units r !! u); try contradiction; [|reflexivity].
+        destruct H as (_ & _ & Heq). rewrite Heq; [reflexivity|]. intros Hin. apply Hn. eauto. }
+      destruct (String.eqb p ""); [rewrite Hu; reflexivity|].
+      unfold prefixed_def. change (r_prefixes r_over) with (r_prefixes r). rewrite Hu, over_symbol. reflexivity.
+  Qed.
+End Agree.
+
+(** what [redefine] builds *)
+Lemma redefine_shape (r r' : reg) (d : redef) :
+  redefine r d = Ok r' →
+  ∃ base sc fl ref,
+    u_base base = false ∧
+    r' = r_over r (UDef (u_name base) (Some (u_symbol base)) (u_aliases base) sc fl CScale ref false).
+Proof.
+  unfold redefine. destruct (parse_unit_name r (rd_name d)) as [|c cs]; [discriminate|].
+  destruct (filter _ (c :: cs)) as [|[p name] l]; [discriminate|].
+  destruct (r_units r !! name) as [base|]; [|discriminate].
+  destruct (u_base base) eqn:Eb; [discriminate|].
+  destruct (ph_from_tokens (rd_rhs d)) as [[p0 fl]|]; cbn [rbind]; [|discriminate].
+  destruct (dim_of r (u_ref base)) as [d_old|]; cbn [rbind]; [|discriminate].
+  destruct (dim_of r (ph_d p0)) as [d_new|]; cbn [rbind]; [|discriminate].
+  destruct (negb (uc_eqb d_old d_new)); [discriminate|]. intros [= <-].
+  exists base, (ph_scale p0), fl, (ph_d p0). split; [exact Eb | reflexivity].
+Qed.
+
+(** Redefinitions are transitive and nothing else moves: after [redefine] (every spelling of the
+    unit denoting it beforehand), the root units of any container whose expansion never consults
+    one of those spellings are what they were. *)
+Theorem redefinition_frame (r r' : reg) (d : redef) :
+  redefine r d = Ok r' →
+  ∃ nd, r' = r_over r nd ∧
+    ((∀ k, k ∈ spellings nd → ∃ b, r_units r !! k = Some b ∧ u_name b = u_name nd ∧ u_symbol b = u_symbol nd) →
+     ∀ a, reach_free (touched r nd) (reg_fuel r) r (map_to_list a) → root_of r' a = root_of r a).
+Proof.
+  intros H. destruct (redefine_shape r r' d H) as (base & sc & fl & ref & _ & ->).
+  set (nd := UDef (u_name base) (Some (u_symbol base)) (u_aliases base) sc fl CScale ref false).
+  exists nd. split; [reflexivity|]. intros own a Hfree.
+  apply (root_of_frame (touched r nd)); [|exact Hfree]. intros s Hs. apply over_agree; assumption.
+Qed.
+
+(** decidable forms of the two hypotheses, so that they can be checked on a concrete registry *)
+Definition touchedb (r : reg) (nd : udef) (s : string) : bool :=
+  match consult r s with Some k => bool_decide (k ∈ spellings nd) | None => false end.
+Lemma touchedb_spec r nd s : touchedb r nd s = false → ¬ touched r nd s.
+Proof.
+  unfold touchedb, touched. intros H (k & Hc & Hin). rewrite Hc in H.
+  apply bool_decide_eq_false in H. contradiction.
+Qed.
+Fixpoint reach_freeb (f : nat) (r : reg) (nd : udef) (l : list (string * Qc)) : bool :=
+  match f with
+  | O => true
+  | S f' => forallb (λ kv : string * Qc,
+              negb (touchedb r nd kv.1) &&
+              match resolve r kv.1 with
+              | Ok d => negb (touchedb r nd (u_name d)) && (u_base d || reach_freeb f' r nd (map_to_list (u_ref d)))
+              | Err _ => true
+              end) l
+  end.
+Lemma reach_freeb_spec r nd f : ∀ l, reach_freeb f r nd l = true → reach_free (touched r nd) f r l.
+Proof.
+  induction f as [|f IH]; intros l H; [exact I|]. cbn [reach_free reach_freeb] in *.
+  rewrite forallb_forall in H. apply Forall_forall. intros kv Hin. apply elem_of_list_In in Hin.
+  specialize (H kv Hin). apply andb_true_iff in H as [H1 H2]. apply negb_true_iff in H1.
+  split; [apply touchedb_spec; exact H1|].
+  destruct (resolve r kv.1) as [d|]; [|exact I].
+  apply andb_true_iff in H2 as [H2 H3]. apply negb_true_iff in H2.
+  split; [apply touchedb_spec; exact H2|]. intros Hb. rewrite Hb in H3. apply IH. exact H3.
+Qed.
+Definition ownb (r : reg) (nd : udef) : bool :=
+  forallb (λ k, match r_units r !! k with
+                | Some b => bool_decide (u_name b = u_name nd) && bool_decide (u_symbol b = u_symbol nd)
+                | None => false
+                end) (spellings nd).
+Lemma ownb_spec r nd : ownb r nd = true →
+  ∀ k, k ∈ spellings nd → ∃ b, r_units r !! k = Some b ∧ u_name b = u_name nd ∧ u_symbol b = u_symbol nd.
+Proof.
+  unfold ownb. rewrite forallb_forall. intros H k Hin. apply elem_of_list_In in Hin. specialize (H k Hin).
+  destruct (r_units r !! k) as [b|]; [|discriminate]. apply andb_true_iff in H as [H1 H2].
+  apply bool_decide_eq_true in H1, H2. eauto.
+Qed.
+Theorem redefinition_frame_dec (r r' : reg) (d : redef) :
+  redefine r d = Ok r' →
+  ∃ nd, r' = r_over r nd ∧
+    (ownb r nd = true → ∀ a, reach_freeb (reg_fuel r) r nd (map_to_list a) = true → root_of r' a = root_of r a).
+Proof.
+  intros H. destruct (redefinition_frame r r' d H) as (nd & -> & Hf). exists nd. split; [reflexivity|].
+  intros Ho a Ha. apply Hf; [apply ownb_spec; exact Ho | apply reach_freeb_spec; exact Ha].
+Qed.
+
+(** the hypotheses on the concrete registry of [redefinition_example]: [foot] owns its spellings,
+    [hour] never consults them, [yard] does *)
+Definition rd_nd : udef :=
+  match r_units rd_reg !! "foot" with
+  | Some base => UDef (u_name base) (Some (u_symbol base)) (u_aliases base) (mkq 10 1) false CScale (u1 "inch") false
+  | None => UDef "" None [] 1%Qc false CScale ∅ false
+  end.
+Lemma redefinition_hypotheses :
+  rd_reg' = r_over rd_reg rd_nd ∧ ownb rd_reg rd_nd = true ∧
+  reach_freeb (reg_fuel rd_reg) rd_reg rd_nd (map_to_list (u1 "hour")) = true ∧
+  reach_freeb (reg_fuel rd_reg) rd_reg rd_nd (map_to_list (u1 "yard")) = false.
+Proof. repeat split; try (vm_compute; reflexivity). Qed.
 Close Scope string_scope.
